@@ -117,6 +117,10 @@ class H:
         self.know(ctx, cid)
         sim.log("ctx_new", ctx=cid, parent=self.cid(ctx.parent), exp=exp)
         self.observe()
+        if b.get("between") and exp is not None:
+            # the parent keeps changing between the child's construction and its entry: the
+            # child's view is the snapshot taken at construction
+            await self.acts(b["between"], exp)
         try:
             # the listener is opened before the context is entered and drained after it has
             # been left, so publications made during teardown are heard too
@@ -1136,6 +1140,11 @@ class G:
         cid = f"x{self.nctx}"
         b: dict[str, Any] = {"id": cid, "parent": rng.choice(("implicit", "implicit", "explicit"))}
         n = rng.randint(1, 7 if self.tier == "quick" else 10)
+        if lineage and rng.random() < 0.25:
+            b["between"] = [a for a in (self.act(lineage, depth) for _ in range(rng.randint(1, 3))) if a[0] in ("add", "fac", "get", "p")]
+            for a in b["between"]:
+                if a[0] != "p":
+                    a[1].pop("target", None)
         b["body"] = self.body(lineage + [cid], depth, n)
         return b
 
